@@ -120,15 +120,22 @@ func (k *KerberosProxy) forward(realm string, data []byte) (resp []byte, err err
 	}
 
 	// merge the kdcs
-	kdcs := make([]Kdc, tcpCnt+udpCnt)
-	for i := range udpKdcs {
-		kdcs[i] = Kdc{Realm: realm, Host: udpKdcs[i], Proto: "udp"}
+	// the message carries its length in the first four bytes
+	if len(data) < 4 {
+		return nil, fmt.Errorf("kerberos message of %d bytes is too short", len(data))
 	}
-	for i := range tcpKdcs {
-		kdcs[i+udpCnt] = Kdc{Realm: realm, Host: tcpKdcs[i], Proto: "tcp"}
+
+	// GetKDCs returns maps keyed 1..n
+	kdcs := make([]Kdc, 0, tcpCnt+udpCnt)
+	for _, host := range udpKdcs {
+		kdcs = append(kdcs, Kdc{Realm: realm, Host: host, Proto: "udp"})
+	}
+	for _, host := range tcpKdcs {
+		kdcs = append(kdcs, Kdc{Realm: realm, Host: host, Proto: "tcp"})
 	}
 
 	replies := make(chan []byte, len(kdcs))
+	pending := 0
 	for i := range kdcs {
 		conn, err := net.Dial(kdcs[i].Proto, kdcs[i].Host)
 
@@ -151,17 +158,22 @@ func (k *KerberosProxy) forward(realm string, data []byte) (resp []byte, err err
 		}
 
 		kdcs[i].Conn = conn
+		pending++
 		go awaitReply(conn, kdcs[i].Proto == "udp", replies)
 	}
 
-	reply := <-replies
+	// the first usable reply wins. replies is buffered, so the goroutines
+	// that are still waiting for their kdc never block on it
+	var reply []byte
+	for ; pending > 0 && reply == nil; pending-- {
+		reply = <-replies
+	}
 
 	// close all the connections and return the first reply
 	for kdc := range kdcs {
 		if kdcs[kdc].Conn != nil {
 			kdcs[kdc].Conn.Close()
 		}
-		<-replies
 	}
 
 	if reply != nil {
